@@ -27,7 +27,7 @@ TFsm ==
   /\ Ev.e = "Fsm"
   /\ UNCHANGED rect
   /\ LET ring == Ev.ring  Q == Ev.raw
-         ER == PEdges(ring)  EQ == AllEdges(Q)
+         ER == PEdges(ring)  EQ == AllEdges(SelectSeq(Q, LAMBDA p : Len(p) >= 2))
          verts == {ring[i] : i \in 1..Len(ring)}
          clear == {p \in Grid(rect) : ClearOf(ER, p, 2)}
      IN /\ Chk(\A k \in 1..Len(Q) : \A i \in 1..Len(Q[k]) : \E u \in verts : Near1(Q[k][i], u), "C08FSM", "fsm_vertex", Ev.id)
